@@ -470,15 +470,22 @@ pub(crate) mod verif_mpmc {
         let waker = ManuallyDrop::new(mk_waker(&cell));
         let mut cx = Context::from_waker(&waker);
         let mut f = ManuallyDrop::new(ch.send(ZVal));
+        let mut stored = len;
         match unsafe { Pin::new_unchecked(&mut *f) }.poll(&mut cx) {
             Poll::Ready(r) => {
                 oracle!(p, P09, len < cap && r.is_ok(), "C09 mpmc: a send completed although its value was neither stored (buffer full / capacity 0) nor taken by a receiver");
+                if r.is_ok() { stored += 1; }
                 core::mem::forget(r);
             }
             Poll::Pending => { oracle!(p, P09, len == cap, "C09 mpmc: a send stays pending although the buffer has room"); }
         }
-        // (the future and the channel are leaked: dropping is not the subject here)
-        core::mem::forget(ch);
+        // C08: the values still buffered are dropped exactly once together with the channel (the future - and the value it
+        // may still hold - is leaked: dropping it is not the subject here)
+        let before = zval_drops();
+        drop(ch);
+        if (p & P08) != 0 {
+            assert!(zval_drops().wrapping_sub(before) == stored as u32, "C08 mpmc: values buffered in the channel were not dropped exactly once with the channel (zero-sized payload with a Drop impl)");
+        }
         s.reached(len as u32);
         len as u32
     }
@@ -522,6 +529,8 @@ pub(crate) mod verif_mpmc {
             #[cfg(feature = "alloc")]
             ("mpmc_zst_fixedheap", _) => { zst_capacity::<crate::buffer::FixedHeapBuf<ZVal>, _>(s, cap, 64, p); }
             ("mpmc_zst_array", 2) => { zst_capacity::<ArrayBuf<ZVal, [ZVal; 2]>, _>(s, 2, 64, p); }
+            #[cfg(feature = "alloc")]
+            ("mpmc_zst_growing", _) => { zst_capacity::<crate::buffer::GrowingHeapBuf<ZVal>, _>(s, cap, 64, p); }
             ("mpmc_hist_noop", 0) => { hist::<NoopLock, ArrayBuf<Tag, [Tag; 0]>, _>(s, cfg, 0, 64, p); }
             ("mpmc_hist_noop", 1) => { hist::<NoopLock, ArrayBuf<Tag, [Tag; 1]>, _>(s, cfg, 1, 64, p); }
             ("mpmc_hist_noop", 2) => { hist::<NoopLock, ArrayBuf<Tag, [Tag; 2]>, _>(s, cfg, 2, 64, p); }
@@ -854,6 +863,18 @@ pub(crate) mod verif_mpmc {
         #[kani::proof]
         #[kani::unwind(5)]
         fn zst_array_c2() { let _ = zst_capacity::<ArrayBuf<ZVal, [ZVal; 2]>, _>(&mut KaniSrc, 2, 4, P09); }
+        #[kani::proof]
+        #[kani::unwind(5)]
+        fn zst_array_c2_c08() { let n = zst_capacity::<ArrayBuf<ZVal, [ZVal; 2]>, _>(&mut KaniSrc, 2, 3, P08); kani::cover!(n == 2, "W zst: two values buffered at the drop"); }
+        #[kani::proof]
+        #[kani::unwind(5)]
+        fn zst_fixedheap_c2_c08() { let _ = zst_capacity::<crate::buffer::FixedHeapBuf<ZVal>, _>(&mut KaniSrc, 2, 3, P08); }
+        #[kani::proof]
+        #[kani::unwind(4)]
+        fn zst_growing_c0() { let _ = zst_capacity::<crate::buffer::GrowingHeapBuf<ZVal>, _>(&mut KaniSrc, 0, 2, P09); }
+        #[kani::proof]
+        #[kani::unwind(5)]
+        fn zst_growing_c2() { let _ = zst_capacity::<crate::buffer::GrowingHeapBuf<ZVal>, _>(&mut KaniSrc, 2, 4, P09); }
         #[kani::proof]
         #[kani::unwind(4)]
         fn repoll_panics_send() {
